@@ -428,7 +428,9 @@ impl ser::SerializeSeq for SeqSerializer<'_> {
     }
 
     fn end(self) -> Result<Self::Ok, Self::Error> {
-        match self.se.seq_type {
+        // The sequence type only applies to this sequence; the serializer is
+        // shared with the value that follows a map key
+        match self.se.seq_type.take() {
             None | Some(SequenceType::List) => Ok(Value::List(self.vec)),
             Some(SequenceType::Array) => Ok(Value::Array(Array::from(self.vec))),
             _ => Err(Error::InvalidValue),
